@@ -59,6 +59,9 @@ type Script struct {
 	bps       int64
 	unstaking time.Duration
 	maxJailed int64
+	// height -> indexes of node keys that are still reported in LastCommitInfo although they already left the
+	// consensus set (Tendermint applies a validator update two blocks later)
+	linger map[int64][]int
 }
 
 func (h *Hist) nextEntropy() int64 { h.entropy++; return h.entropy }
@@ -130,6 +133,22 @@ func newHist(id int, mode string, r *gen.R, tr *gen.Trace) *Hist {
 			actions: map[int64][]string{9: {"unjail:1"}, 11: {"unjail:1"}, 12: {"unjail:1"}, 13: {"unjail:1"}, 14: {"unjail:1"}, 15: {"unjail:1"}}, step: 2 * time.Minute, window: 10}
 		nGen = 3
 	}
+	if (mode == "c25" || mode == "all") && id%10 == 6 {
+		// an edit-stake during the downtime jail: node 1 misses blocks 3-8 (jailed in block 8 until t8 + 10 minutes = t13),
+		// sends an edit-stake that changes nothing in block 9 and asks to be unjailed in blocks 10 and 11
+		h.script = &Script{miss: map[int64][]int{3: {1}, 4: {1}, 5: {1}, 6: {1}, 7: {1}, 8: {1}},
+			actions: map[int64][]string{9: {"edit:1"}, 10: {"unjail:1"}, 11: {"unjail:1"}}, step: 2 * time.Minute, window: 10}
+		nGen = 3
+	}
+	if (mode == "c25" || mode == "all") && id%10 == 1 {
+		// a downtime jail that spans a signing-window boundary: node 1 misses blocks 4-9 (window 10, 5 must be signed:
+		// jailed at the 6th miss, in block 9, until t9 + 10 minutes = t14), is still in the commit of block 10 (the
+		// window boundary: per-window reset of its signing info) and tries to unjail in blocks 11, 12, 13 (early),
+		// 14 (exactly at the end) and 15
+		h.script = &Script{miss: map[int64][]int{4: {1}, 5: {1}, 6: {1}, 7: {1}, 8: {1}, 9: {1}}, linger: map[int64][]int{10: {1}, 11: {1}},
+			actions: map[int64][]string{11: {"unjail:1"}, 12: {"unjail:1"}, 13: {"unjail:1"}, 14: {"unjail:1"}, 15: {"unjail:1"}}, step: 2 * time.Minute, window: 10}
+		nGen = 3
+	}
 	if (mode == "c24" || mode == "all") && id%5 == 2 {
 		// a waiting-to-unstake entry that outlives its record and hits the next stake of the same key (sessions of 4
 		// blocks, blocks every 2 minutes, unstaking time 11 minutes, at most 5 jailed blocks): node 1 asks to unstake in
@@ -199,7 +218,7 @@ func newHist(id int, mode string, r *gen.R, tr *gen.Trace) *Hist {
 					v.RewardDelegators[strings.ToLower(h.outs[3].Addr.String())] = uint32(1 + r.Intn(40))
 				}
 			}
-			if r.Chance(1, 10) {
+			if r.Chance(1, 10) && h.script == nil { // (scripted histories start with everybody in service)
 				v.Jailed = true
 			}
 			if mode == "c19" && id%4 == 2 && i == nGen-1 {
@@ -305,6 +324,15 @@ func (h *Hist) block(codes map[string]int) {
 		addr, _ := sdk.AddressFromHex(a)
 		votes = append(votes, abci.VoteInfo{Validator: abci.Validator{Address: addr, Power: pw}, SignedLastBlock: signed})
 		vs = append(vs, fmt.Sprintf("%s:%d:%d", hx(addr), pw, b2i(signed)))
+	}
+	if h.script != nil && !h.silent {
+		for _, i := range h.script.linger[height] {
+			k := h.nodes[i]
+			if _, member := h.tm[k.Addr.String()]; !member {
+				votes = append(votes, abci.VoteInfo{Validator: abci.Validator{Address: k.Addr, Power: 16000}, SignedLastBlock: true})
+				vs = append(vs, fmt.Sprintf("%s:%d:%d", hx(k.Addr), 16000, 1))
+			}
+		}
 	}
 	if !h.silent && h.script == nil && r.Chance(1, 15) { // a vote of somebody who is not (or no longer) a validator
 		k := h.nodes[r.Intn(len(h.nodes))]
